@@ -261,12 +261,13 @@ def rule_counting(ctx):
         outs = Interp(pkg, self_class="binary_sequence", inline=False).run(m)
         rets = [o for o in outs if o.kind == "return"]
         got = rets[0].value if len(rets) == 1 else None
-        alt = S("self.data.size") if name == "len" else None
+        # the stored data are 0/1 (C15.1): the number of non-zero entries is their sum
+        alt = S("self.data.size") if name == "len" else (mk_fn("count_nonzero", [S("self.data")]) if name == "ones" else None)
         ctx.check("C15.5", got is not None and (got == want or (alt is not None and got == alt)), m, m.node, f"binary_sequence.{name}() = {got!r}", "data.size / sum(data)", f"{name}() is not {want!r}")
     m = pkg.find_method("typing", "binary_sequence", "zeros")
     rets = [o for o in Interp(pkg, self_class="binary_sequence").run(m) if o.kind == "return"]
     got = rets[0].value if len(rets) == 1 else None
-    wants = [a - mk_fn("sum", [S("self.data")]) for a in (mk_fn("size", [S("self.data")]), S("self.data.size"), mk_fn("len", [S("self.data")]))]
+    wants = [a - mk_fn(cnt, [S("self.data")]) for a in (mk_fn("size", [S("self.data")]), S("self.data.size"), mk_fn("len", [S("self.data")])) for cnt in ("sum", "count_nonzero")]
     ctx.check("C15.5", isinstance(got, Form) and got in wants, m, m.node, f"binary_sequence.zeros() = {got!r}", "len() - ones()", "zeros() is not len() - ones()")
 
 
